@@ -303,6 +303,9 @@ def check_closure(W, ob, entries, scope_name, key_prefix):
         if p in std['total'] or p in std['site']:
             continue
         f, t = uses[0]
+        if external_default_total(t.callee):
+            stats['std_default_total'] = stats.get('std_default_total', 0) + 1
+            continue
         ob.fail('%s|unreviewed-external|%s' % (key_prefix, p),
                 'the %s calls `%s`, which is not in the reviewed totality table (tables/std_total.json): it may panic or allocate '
                 'without bound on attacker-chosen input' % (scope_name, p), '%s:%d (%s)' % (f.file, t.line, short_fn(f)))
@@ -340,3 +343,25 @@ def discharge_with_invariants(W, s, invs):
                     return 'range+invariant', 'index ranges over 0..%s, %s == %s (struct invariant: %s) and the guard implies %s == %s' % (
                         iv['lhs'], iv['lhs'], iv['rhs'], iv['protected_by'][:80], key(ln), iv['rhs'])
     return None, why
+
+
+# std / core / alloc functions that are not in the reviewed table are taken to be total unless their name is one of the
+# panic-capable families (those are sites of the inventory); callees from any other crate must be listed in the table.
+STD_CRATES = {'std', 'core', 'alloc'}
+EXTRA_PANIC_NAMES = {'borrow_mut', 'abs', 'from_secs_f64', 'from_secs_f32', 'from_digit', 'to_digit', 'swap', 'rotate_left', 'rotate_right', 'copy_within',
+                     'checked_duration_since_unwrap', 'from_utf8_unchecked', 'get_unchecked', 'get_unchecked_mut', 'assume_init', 'div', 'rem', 'shl', 'shr',
+                     'neg', 'mul', 'next_power_of_two', 'ilog2', 'ilog10', 'isqrt', 'exit', 'abort', 'park', 'join', 'recv', 'lock', 'write', 'read'}
+
+
+def external_default_total(callee):
+    if callee is None or callee.indirect is not None:
+        return False
+    crate = callee.rcrate or callee.crate
+    if crate not in STD_CRATES:
+        return False
+    seg = last_seg(callee.best)
+    if seg in PANIC_METHODS and PANIC_METHODS[seg] is not None:
+        return False
+    if seg in EXTRA_PANIC_NAMES:
+        return False
+    return True
